@@ -47,7 +47,7 @@ func tsidSeries(r *rand.Rand) mser {
 		k := tsidWord(r)
 		if !seen[k] {
 			seen[k] = true
-			s.labels = append(s.labels, mkv{k, tsidWord(r)})
+			s.labels = append(s.labels, mkv{k: k, v: tsidWord(r)})
 		}
 	}
 	return s
@@ -153,7 +153,7 @@ func parseTsidSeries(tok string) (s mser, ok bool) {
 				return
 			}
 			seen[string(kb)] = true
-			s.labels = append(s.labels, mkv{string(kb), string(vb)})
+			s.labels = append(s.labels, mkv{k: string(kb), v: string(vb)})
 		}
 	}
 	return s, true
